@@ -845,6 +845,7 @@ func (l *ledger) checkInfo(n *simNode) {
 	}
 	if newest != 0 {
 		if r.configs.Latest.Index != newest || canonConfig(r.configs.Latest) != newestCfg {
+			l.violate("config", "adopted-config-not-in-log", fmt.Sprintf("node %d operates on configuration %d {%s} which is not the newest configuration entry of its log (%d {%s})", n.id, r.configs.Latest.Index, canonConfig(r.configs.Latest), newest, newestCfg))
 			l.violate("info", "latest-config-not-newest-entry", fmt.Sprintf("node %d: latest config is %d {%s} but newest config entry in its log is %d {%s}", n.id, r.configs.Latest.Index, canonConfig(r.configs.Latest), newest, newestCfg))
 		}
 	}
